@@ -479,6 +479,49 @@ Proof.
     intros u [X|I] NU; [subst u; eauto|auto].
 Qed.
 
+(* candidates that are all instances of int (bool) give an Enum typed within int (bool) *)
+Lemma typed_within_inv : forall v t, v <> PNone ->
+  match v with
+  | PNone => true
+  | _ => match type_of v with Some tw => issub tw t | None => false end
+  end = true -> exists tw, type_of v = Some tw /\ issub tw t = true.
+Proof. intros v t NN H. destruct v; try congruence; simpl in *; try discriminate; eauto. Qed.
+
+Lemma chain_int_bool : forall t0 a b, t0 = TyInt \/ t0 = TyBool -> issub a t0 = true -> issub b t0 = true ->
+  issub a b = true \/ issub b a = true.
+Proof. intros t0 a b [E|E]; subst; destruct a, b; simpl; intros; try discriminate; auto. Qed.
+
+Lemma enum_vtype_go_chain : forall t0, t0 = TyInt \/ t0 = TyBool ->
+  forall vs cur, issub cur t0 = true -> all_typed_within vs t0 = true ->
+  exists t, enum_vtype_go cur vs = Some t /\ issub t t0 = true.
+Proof.
+  intros t0 T0. induction vs as [|v vs IH]; intros cur SC W.
+  - simpl. eauto.
+  - simpl in W. apply andb_true_iff in W as [W1 W2].
+    destruct (pv_is_none v) as [E|NN].
+    + subst v. simpl. auto.
+    + rewrite enum_vtype_go_cons by exact NN.
+      destruct (typed_within_inv _ _ NN W1) as [nx [Tv Sx]]. rewrite Tv.
+      destruct (issub cur nx) eqn:S1; [apply IH; auto|].
+      destruct (chain_int_bool _ _ _ T0 SC Sx) as [X|X]; [congruence|]. rewrite X. apply IH; auto.
+Qed.
+
+Lemma enum_vtype_chain : forall vs t0, t0 = TyInt \/ t0 = TyBool -> all_typed_within vs t0 = true ->
+  forall w, In w vs -> w <> PNone -> exists t, enum_vtype vs = Some [t] /\ issub t t0 = true.
+Proof.
+  intros vs t0 T0. induction vs as [|v vs IH]; intros W w Iw WN; [contradiction|].
+  simpl in W. apply andb_true_iff in W as [W1 W2].
+  destruct (pv_is_none v) as [E|NN].
+  - subst v. simpl. destruct Iw as [X|Iw]; [congruence|]. eauto.
+  - assert (EQ : enum_vtype (v :: vs) =
+                 match type_of v with
+                 | None => None
+                 | Some t => match enum_vtype_go t vs with Some t' => Some [t'] | None => None end
+                 end) by (destruct v; try reflexivity; congruence).
+    rewrite EQ. destruct (typed_within_inv _ _ NN W1) as [nx [Tv Sx]]. rewrite Tv.
+    destruct (enum_vtype_go_chain t0 T0 vs nx Sx W2) as [t [G S]]. rewrite G. eauto.
+Qed.
+
 (* == relates numbers to numbers and otherwise values of one type *)
 Lemma py_eq_types : forall u v, py_eq u v = true ->
   (num_of u <> None /\ num_of v <> None) \/ type_of u = type_of v.
@@ -561,14 +604,18 @@ Proof.
     destruct (py_eq_types _ _ Eu) as [[Nu Nv]|Same].
     + (* both numbers *)
       unfold enum_types_ok in TY. rewrite Q, VT in TY. simpl in TY.
-      assert (W : forall t0, types_within (enum_vtype ovals) [t0] = true -> isinstance v [t0] = true).
-      { intros t0 W. unfold types_within in W. destruct (enum_vtype ovals) as [us|] eqn:OV; [|discriminate].
-        apply coerce_fixed_instance in Co. unfold isinstance in *. destruct (type_of v) as [tv|]; [|discriminate].
-        apply existsb_exists in Co as [u' [Iu' Su']]. rewrite forallb_forall in W. specialize (W _ Iu').
-        simpl in *. rewrite orb_false_r in *. eapply issub_trans; eauto. }
+      assert (W : forall t0, t0 = TyInt \/ t0 = TyBool -> all_typed_within ovals t0 = true ->
+                  isinstance v [t0] = true).
+      { intros t0 T0 W. unfold py_in in I. apply existsb_exists in I as [w [Iw Ew]].
+        assert (WN : w <> PNone).
+        { intros X; subst. pose proof (py_eq_shape _ _ Ew) as S. simpl in S. subst. simpl in T. congruence. }
+        destruct (enum_vtype_chain _ _ T0 W _ Iw WN) as [tb [EV Sb]].
+        rewrite EV in Co. apply coerce_fixed_instance in Co. unfold isinstance in *.
+        destruct (type_of v) as [tv|]; [|discriminate]. simpl in *. rewrite orb_false_r in *.
+        eapply issub_trans; eauto. }
       destruct (numeric_type _ Nu) as [X|[X|X]]; rewrite X in Tu; inv Tu;
         destruct t; simpl in Su; try discriminate; auto;
-        try (left; apply W; exact TY);
+        try (left; apply W; [auto | exact TY]);
         try (left; unfold isinstance; destruct (type_of v); [destruct t; reflexivity|congruence]).
     + left. unfold isinstance. rewrite <- Same, Tu. simpl. rewrite Su. reflexivity.
 Qed.
